@@ -13,6 +13,7 @@
   * `constants_match_code`  — the literals of the model are the SOCKS5_* constants regenerated from modes.py (Gen/C21.lean)
 -/
 import MitmVerif.Lemmas.C21
+import MitmVerif.Lemmas.C21V6
 import MitmVerif.Gen.C21
 namespace MitmVerif.Props.C21
 open MitmVerif MitmVerif.C21
@@ -378,6 +379,253 @@ example : feed envA init [5,1,2, 1,1,0x61,1,0x62, 5,1,0,3,1,0x78,0,80] =
 example : actAll envT (.settled init) [.ev (.data [5,1,0,5,1,0,1,1,2,3,4,0,80]), .ev (.data [9]), .ev .close, .complete] =
     (.settled .relay, [.send [5,0], .setAddr 1 [1,2,3,4] 80, .openServer, .childStart, .send (reply 0),
                        .child 9, .childClose]) := by decide +kernel
+
+/-! ### round 3: the address text, method selection for every offered list, BIND / UDP ASSOCIATE, buffered replay -/
+
+/-- after an accepted greeting (+ auth) the machine continues with the connect stage on whatever follows -/
+theorem pre_then_connect (env : Env) (pre rest : Bytes) (hpre : ValidPre env pre) :
+    ∃ o, feed env init (pre ++ rest) = ((syncConnect env rest).1, o ++ (syncConnect env rest).2) ∧
+      sends o = preSends env ∧ setAddrs o = [] ∧ childBytes o = [] ∧ Out.openServer ∉ o ∧ Out.childStart ∉ o ∧
+      Out.close ∉ o := by
+  obtain ⟨ms, hl, hc, h⟩ := hpre
+  rcases h with ⟨ha, rfl⟩ | ⟨ha, v, u, pw, hu, hp, hv, rfl⟩
+  · refine ⟨[.send [5, 0]], ?_, by simp [sends, preSends, ha], by simp [setAddrs], by simp [childBytes], by simp, by simp, by simp⟩
+    have hne : (5 :: UInt8.ofNat ms.length :: ms) ++ rest ≠ [] := by simp
+    rw [feed_init env _ hne]
+    have := syncGreet_fwd env ms rest hl hc
+    simp only [greetMsg] at this
+    rw [this]; simp [ha]
+  · refine ⟨[.send [5, 2], .authHook u pw, .send [1, 0]], ?_, by simp [sends, preSends, ha], by simp [setAddrs],
+      by simp [childBytes], by simp, by simp, by simp⟩
+    have hne : (5 :: UInt8.ofNat ms.length :: ms ++ (v :: UInt8.ofNat u.length :: u ++ UInt8.ofNat pw.length :: pw)) ++ rest ≠ [] := by simp
+    rw [feed_init env _ hne]
+    have := syncGreet_fwd env ms (authMsg v u pw ++ rest) hl hc
+    have h2 := syncAuth_fwd env v u pw rest hu hp hv
+    simp only [greetMsg, authMsg, List.append_assoc, List.cons_append] at this h2 ⊢
+    rw [this, h2]; simp [ha]
+
+/-- **BIND, UDP ASSOCIATE and every other command** are refused: after any accepted greeting (+ auth), a request
+    whose CMD is not CONNECT (5 bytes of it available), cut in any way, is answered with REP 07 and the client is
+    closed; no destination is set, nothing is opened, nothing reaches the next layer. -/
+theorem other_commands_rejected (env : Env) (segs : List Bytes) (pre : Bytes) (cmd rsv a x : UInt8) (tl : Bytes)
+    (hflat : segs.flatten = pre ++ (5 :: cmd :: rsv :: a :: x :: tl)) (hpre : ValidPre env pre) (hcmd : cmd ≠ 1) :
+    let r := (inc env).feedAll init segs
+    r.1 = .done ∧ sends r.2 = preSends env ++ [reply 7] ∧ r.2.getLast? = some .close ∧
+      setAddrs r.2 = [] ∧ Out.openServer ∉ r.2 ∧ childBytes r.2 = [] ∧ Out.childStart ∉ r.2 := by
+  intro r
+  have hr : r = feed env init segs.flatten := seg_independent env init segs
+  obtain ⟨o, ho, h1, h2, h3, h4, h5, _⟩ := pre_then_connect env pre (5 :: cmd :: rsv :: a :: x :: tl) hpre
+  have hrej := (reject_codes env).2.1 5 cmd rsv a x tl (by simp [hcmd])
+  rw [hr, hflat, ho, hrej]
+  simp [h1, h2, h3, h4, h5, sends, setAddrs, childBytes, List.getLast?_append]
+
+/-- BIND (CMD 02) and UDP ASSOCIATE (CMD 03) in particular -/
+theorem bind_and_udp_associate_rejected (env : Env) (segs : List Bytes) (pre : Bytes) (rsv a x : UInt8) (tl : Bytes)
+    (cmd : UInt8) (hc : cmd = 2 ∨ cmd = 3)
+    (hflat : segs.flatten = pre ++ (5 :: cmd :: rsv :: a :: x :: tl)) (hpre : ValidPre env pre) :
+    ((inc env).feedAll init segs).1 = .done ∧
+      sends ((inc env).feedAll init segs).2 = preSends env ++ [reply 7] ∧
+      setAddrs ((inc env).feedAll init segs).2 = [] ∧ childBytes ((inc env).feedAll init segs).2 = [] := by
+  have hne : cmd ≠ 1 := by rcases hc with rfl | rfl <;> decide
+  have := other_commands_rejected env segs pre cmd rsv a x tl hflat hpre hne
+  exact ⟨this.1, this.2.1, this.2.2.2.1, this.2.2.2.2.2.1⟩
+
+/-- **method selection for every offered-method list**: whatever list `ms` of at most 255 methods the client offers,
+    whatever follows and however the stream is cut: if the required method (00, or 02 with proxyauth) is in the list
+    the first reply is `05 <required>`, otherwise the only reply is `05 FF…`, the client is closed and nothing else
+    happens. -/
+theorem method_selection (env : Env) (ms rest : Bytes) (segs : List Bytes) (hl : ms.length < 256)
+    (hflat : segs.flatten = greetMsg ms ++ rest) :
+    (ms.contains (needed env) = true → (sends ((inc env).feedAll init segs).2).head? = some [5, needed env]) ∧
+    (ms.contains (needed env) = false →
+        (inc env).feedAll init segs = (.done, [.send (reply 0xFF), .close])) := by
+  have hr : (inc env).feedAll init segs = feed env init segs.flatten := seg_independent env init segs
+  have hne : greetMsg ms ++ rest ≠ [] := by simp [greetMsg]
+  rw [hr, hflat, feed_init env _ hne]
+  refine ⟨fun hc => ?_, fun hc => (reject_codes env).1 ms rest hl hc⟩
+  rw [syncGreet_fwd env ms rest hl hc]
+  by_cases ha : env.authOn = true <;> simp [ha, sends, needed]
+
+/-- an incomplete method list is never answered -/
+theorem greeting_incomplete_silent (env : Env) (ms : Bytes) (k : Nat) (segs : List Bytes) (hl : ms.length < 256)
+    (hk : k < ms.length + 2) (hflat : segs.flatten = (greetMsg ms).take k) :
+    (inc env).feedAll init segs = (.greet ((greetMsg ms).take k), []) := by
+  have hr : (inc env).feedAll init segs = feed env init segs.flatten := seg_independent env init segs
+  rw [hr, hflat]
+  by_cases hne : (greetMsg ms).take k = []
+  · rw [hne]; simp [feed, init]
+  rw [feed_init env _ hne]
+  match k, hk with
+  | 0, _ => simp at hne
+  | 1, _ => simp [greetMsg, syncGreet, parseGreet]
+  | k + 2, hk =>
+    have hlt : (ms.take k).length < ms.length := by simp only [List.length_take]; omega
+    simp [greetMsg, syncGreet, parseGreet, UInt8.toNat_ofNat_of_lt' hl]
+    have hm : min k ms.length < ms.length := by omega
+    simp [hm]
+
+/-! ### deferred completions: what was buffered is replayed to the handler in force at that moment -/
+
+private theorem handleAll_relay_data (env : Env) (ds : List Bytes) :
+    handleAll env (.settled .relay) (ds.map .data) = (.settled .relay, ds.flatten.map .child) := by
+  induction ds with
+  | nil => rfl
+  | cons d ds ih =>
+    have hd : handle env (.settled .relay) (.data d) = (.settled .relay, d.map .child) := by
+      simp only [handle]; split
+      · rename_i h; subst h; rfl
+      · rfl
+    simp [handleAll, hd, ih]
+
+/-- **buffered request and data (the hook is pending, lazy strategy).**  The CONNECT request and later application
+    data arrive as separate segments while the socks5_auth hook is still pending.  When the hook completes with a
+    positive verdict the request is parsed by the SOCKS5 state machine, and every *later* buffered segment goes to the
+    child layer — the handler is looked up per replayed event — exactly once and in order. -/
+theorem buffered_request_then_data_relayed (env : Env) (u p : Bytes) (a : UInt8) (ad : Bytes) (pt : Nat) (t : Bytes)
+    (ds : List Bytes) (hv : env.valid u p = true) (hlazy : env.eager = false) (hvd : ValidDest a ad pt) :
+    complete env (.authWait u p [] (.data (encodeReq a ad pt ++ t) :: ds.map .data)) =
+      (.settled .relay,
+        [.send [1, 0], .setAddr a ad pt] ++ relayStart t ++ ds.flatten.map .child) := by
+  have hne : encodeReq a ad pt ++ t ≠ [] := by
+    unfold encodeReq; split <;> simp
+  have hc : aConnect env [] = (.settled (.connect []), []) := by simp [aConnect, parseConnect]
+  have hreq : handle env (.settled (.connect [])) (.data (encodeReq a ad pt ++ t)) =
+      (.settled .relay, [.setAddr a ad pt] ++ relayStart t) := by
+    simp only [handle, hne, if_false, List.nil_append]
+    simp [aConnect, parseConnect_fwd a ad pt t hvd, hlazy]
+  simp only [complete, hv, if_true, hc, handleAll, hreq, handleAll_relay_data]
+  simp
+
+/-- **deferred handshake relays**: any schedule (cuts + timing of hook / connect completions) of a well-formed
+    handshake followed by `t` ends, once everything has completed, relaying, with exactly `t` given to the child and the
+    requested destination set once. -/
+theorem deferred_handshake_relays (env : Env) (acts : List Act) (segs : List Bytes) (pre : Bytes) (a : UInt8)
+    (ad : Bytes) (p : Nat) (t : Bytes) (hins : insOf acts = segs.map .data)
+    (hflat : segs.flatten = pre ++ encodeReq a ad p ++ t)
+    (hpre : ValidPre env pre) (hvd : ValidDest a ad p) (hc : env.eager = true → env.connOk = true) :
+    let r := actAll env (.settled init) acts
+    let r' := settle env r.1
+    r'.1 = .settled .relay ∧ childBytes (r.2 ++ r'.2) = t ∧ setAddrs (r.2 ++ r'.2) = [(a, ad, p)] := by
+  intro r r'
+  have h := schedule_and_segmentation_independent env acts segs false (by simpa using hins)
+  have h2 := after_request_relayed_once_in_order env segs pre a ad p t hflat hpre hvd hc
+  rw [seg_independent] at h2
+  simp only [Bool.false_eq_true, if_false, List.append_nil] at h
+  exact ⟨by rw [h.1, h2.1], by rw [h.2]; exact h2.2.1, by rw [h.2]; exact h2.2.2.1⟩
+
+/-! ### the address text -/
+
+private theorem digit_facts : ∀ d : Fin 10, isDigit (digitChar d.val) = true ∧ (digitChar d.val).toNat - 48 = d.val := by
+  decide
+
+private theorem takeDec_digit (d : Nat) (hd : d < 10) (r : List Char) (acc : Nat) :
+    takeDec (digitChar d :: r) acc = takeDec r (acc * 10 + d) := by
+  have := digit_facts ⟨d, hd⟩
+  simp only [takeDec, this.1, if_true, this.2]
+
+private theorem takeDec_stop (r : List Char) (acc : Nat) : takeDec ('.' :: r) acc = (acc, '.' :: r) := by
+  simp [takeDec, isDigit]
+
+/-- reading back one rendered byte, up to the next dot or the end -/
+private theorem takeDec_decByte (n : Nat) (hn : n < 256) (r : List Char) (hr : r = [] ∨ ∃ r', r = '.' :: r') :
+    takeDec (decByte n ++ r) 0 = (n, r) := by
+  have stop : ∀ acc, takeDec r acc = (acc, r) := by
+    intro acc; rcases hr with rfl | ⟨r', rfl⟩
+    · rfl
+    · exact takeDec_stop r' acc
+  unfold decByte
+  split
+  · rename_i h; simp only [List.cons_append, List.nil_append]
+    rw [takeDec_digit n h, stop]; simp
+  · split
+    · rename_i h1 h2
+      simp only [List.cons_append, List.nil_append]
+      rw [takeDec_digit _ (by omega), takeDec_digit _ (by omega), stop]
+      congr 1; omega
+    · rename_i h1 h2
+      simp only [List.cons_append, List.nil_append]
+      rw [takeDec_digit _ (by omega), takeDec_digit _ (by omega), takeDec_digit _ (by omega), stop]
+      congr 1; omega
+
+/-- **IPv4 text is exact**: the dotted quad the server stores reads back to the four requested bytes -/
+theorem textV4_roundtrip (a b c d : UInt8) : parseV4 (textV4 [a, b, c, d]) = some [a, b, c, d] := by
+  have ha := a.toNat_lt; have hb := b.toNat_lt; have hc := c.toNat_lt; have hd := d.toNat_lt
+  simp only [textV4, parseV4, List.append_assoc, List.cons_append]
+  rw [takeDec_decByte a.toNat ha _ (Or.inr ⟨_, rfl⟩)]
+  simp only
+  rw [takeDec_decByte b.toNat hb _ (Or.inr ⟨_, rfl⟩)]
+  simp only
+  rw [takeDec_decByte c.toNat hc _ (Or.inr ⟨_, rfl⟩)]
+  simp only
+  have := takeDec_decByte d.toNat hd [] (Or.inl rfl)
+  rw [List.append_nil] at this
+  rw [this]
+  simp
+
+theorem textV4_injective (x y : Bytes) (hx : x.length = 4) (hy : y.length = 4) (h : textV4 x = textV4 y) : x = y := by
+  match x, hx, y, hy with
+  | [a, b, c, d], _, [a', b', c', d'], _ =>
+    have h1 := textV4_roundtrip a b c d
+    rw [h, textV4_roundtrip] at h1
+    exact (Option.some.inj h1).symm
+
+private theorem ascii_char : ∀ n : Fin 128, UInt8.ofNat (Char.ofNat n.val).toNat = UInt8.ofNat n.val := by decide +kernel
+
+/-- **ASCII names are exact**: for a name without non-ASCII bytes the stored host is the name, byte for byte -/
+theorem textDomain_ascii (ad : Bytes) (h : ∀ b ∈ ad, b.toNat < 128) : asciiBytes (textDomain ad) = ad := by
+  induction ad with
+  | nil => rfl
+  | cons b r ih =>
+    have hb := h b (by simp)
+    have := ascii_char ⟨b.toNat, hb⟩
+    simp only [asciiBytes, textDomain, List.map_cons, hb, if_true] at this ⊢
+    rw [this, UInt8.ofNat_toNat]
+    congr 1
+    exact ih (fun x hx => h x (by simp [hx]))
+
+/-- in general the stored host has one character per byte (non-ASCII bytes become U+FFFD) -/
+theorem textDomain_length (ad : Bytes) : (textDomain ad).length = ad.length := by simp [textDomain]
+
+/-- **connects exactly where requested, as text**: for every segmentation of a well-formed handshake the one
+    `(host, port)` assigned to `context.server.address` is `hostText` of the requested address and the requested port;
+    for IPv4 that text reads back to the requested bytes, for an ASCII name it is the name. -/
+theorem connects_to_requested_text (env : Env) (segs : List Bytes) (pre : Bytes) (a : UInt8) (ad : Bytes) (p : Nat)
+    (t : Bytes) (hflat : segs.flatten = pre ++ encodeReq a ad p ++ t) (hpre : ValidPre env pre) (hvd : ValidDest a ad p) :
+    addrTexts ((inc env).feedAll init segs).2 = [(hostText a ad, p)] ∧
+    (a = 1 → parseV4 (hostText a ad) = some ad) ∧
+    (a = 3 → (∀ b ∈ ad, b.toNat < 128) → asciiBytes (hostText a ad) = ad) := by
+  refine ⟨?_, ?_, ?_⟩
+  · obtain ⟨o, ho, h1, _, _⟩ := requested_is_connected env pre a ad p t hpre hvd
+    rw [seg_independent, hflat, ho]
+    simp [addrTexts, h1, (connResult_obs env a ad p t).1]
+  · intro ha; subst ha
+    rcases hvd.1 with ⟨_, hl⟩ | ⟨h4, _⟩ | ⟨h3, _⟩
+    · match ad, hl with
+      | [x, y, z, w], _ => simpa [hostText] using textV4_roundtrip x y z w
+    · cases h4
+    · cases h3
+  · intro ha hasc; subst ha
+    simpa [hostText] using textDomain_ascii ad hasc
+
+/-- **IPv6 text, RFC 5952 §4.2.2 / §4.2.3**: for every 16-byte address the run that `hostText` replaces by "::" is
+    the leftmost longest run of at least two zero words; without such a run nothing is compressed. -/
+theorem textV6_compresses_leftmost_longest_zero_run (ad : Bytes) (h : ad.length = 16) :
+    bestRunSpec ((words16 ad).map (· == 0)) (bestRun (words16 ad)) = true :=
+  bestRun_spec (words16 ad) (words16_length ad h)
+
+-- the text forms, computed by the kernel (what inet_ntop / decode give for the same bytes)
+example : String.ofList (hostText 1 [127, 0, 0, 1]) = "127.0.0.1" := by decide +kernel
+example : String.ofList (hostText 4 [0x20,1,0xd,0xb8,0,0,0,0,0,1,0,0,0,0,0,1]) = "2001:db8::1:0:0:1" := by decide +kernel
+example : String.ofList (hostText 4 [0,0,0,0,0,0,0,0,0,0,0xff,0xff,1,2,3,4]) = "::ffff:1.2.3.4" := by decide +kernel
+example : String.ofList (hostText 4 [0,1,0,0,0,2,0,0,0,3,0,0,0,4,0,0]) = "1:0:2:0:3:0:4:0" := by decide +kernel
+example : hostText 3 [0x61, 0xe4] = ['a', Char.ofNat 0xFFFD] := by decide +kernel
+-- BIND after a valid greeting, cut in two
+example : (inc envT).feedAll init [[5,1,0,5], [2,0,1,0]] = (.done, [.send [5,0], .send (reply 7), .close]) := by decide +kernel
+-- c21-3: request and data buffered while the hook is pending, lazy strategy
+example : actAll ⟨true, fun _ _ => true, false, true⟩ (.settled init)
+      [.ev (.data [5,1,2,1,0,0]), .ev (.data [5,1,0,1,1,2,3,4,0,80]), .ev (.data [7]), .ev (.data [8]), .complete] =
+    (.settled .relay, [.send [5,2], .authHook [] [], .send [1,0], .setAddr 1 [1,2,3,4] 80, .childStart, .send (reply 0),
+                       .child 7, .child 8]) := by decide +kernel
 
 /-! ### (T) the model's literals are the constants of the code (Gen/C21.lean is regenerated on every run) -/
 
